@@ -247,6 +247,89 @@ def check_uhf_spin_sorts(idx: Index, rep: Report):
     return f, g
 
 
+def check_derived_molecule_sharing(idx: Index, rep: Report):
+    """The orbital coefficients of a molecule live in two places: `solver.mo_coeff` (where the qubit Hamiltonian's integrals come from) and `mean_field.mo_coeff`
+    (what the classical solvers read).  The `mo_coeff` setter writes both, which keeps ONE molecule consistent; two molecule objects derived from one another
+    (freeze_mos(inplace=False) makes a shallow copy) stay consistent only if they share both holders or neither.  Rule: in every method of the molecule classes
+    that builds a shallow copy of `self`, the copy's `solver` and `mean_field` are either both re-assigned or both left alone."""
+    rule = "K2.derived-molecule-sharing"
+    ci = idx.cls(f"{MOL}::SecondQuantizedMolecule")
+    # the premise, read from the code: the setter stores into self.solver and calls the solver's hook, which stores into the molecule's mean_field
+    setter = next((f for f in idx.module_by_relpath(MOL).functions.values() if f.qualname.endswith("SecondQuantizedMolecule.mo_coeff")
+                   and any(norm(d).endswith(".setter") for d in f.node.decorator_list)), None)
+    if setter is None:
+        raise AnalysisError("SecondQuantizedMolecule.mo_coeff setter not found")
+    writes_solver = any(isinstance(n, ast.Assign) and norm(n.targets[0]) == "self.solver.mo_coeff" for n in ast.walk(setter.node))
+    calls_hook = any(isinstance(n, ast.Call) and norm(n.func) == "self.solver.modify_solver_mo_coeff" for n in ast.walk(setter.node))
+    hooks = [f for f in idx.all_functions() if f.qualname.endswith(".modify_solver_mo_coeff") and not f.module.external
+             and any(isinstance(n, ast.Assign) and norm(n.targets[0]).endswith(".mean_field.mo_coeff") for n in ast.walk(f.node))]
+    if not (writes_solver and calls_hook and hooks):
+        raise AnalysisError("mo_coeff setter: the two holders of the orbital coefficients (solver.mo_coeff, mean_field.mo_coeff) are no longer written the way this rule assumes")
+    n = 0
+    for m in ci.methods.values():
+        copies = [st for st in own_nodes(m.node) if isinstance(st, ast.Assign) and isinstance(st.targets[0], ast.Name) and isinstance(st.value, ast.Call)
+                  and norm(st.value.func) in ("copy.copy", "copy") and len(st.value.args) == 1 and norm(st.value.args[0]) == "self"]
+        for st in copies:
+            name = st.targets[0].id
+            stored = {t.attr for x in own_nodes(m.node) if isinstance(x, (ast.Assign, ast.AugAssign)) for t in (x.targets if isinstance(x, ast.Assign) else [x.target])
+                      if isinstance(t, ast.Attribute) and norm(t.value) == name}
+            n += 1
+            both = {"solver", "mean_field"} & stored
+            rep.decide(len(both) != 1, rule, m, st, text=f"{m.qualname}: {name} = copy.copy(self); re-assigned on the copy: {sorted(stored)}",
+                       what="a molecule derived by a shallow copy shares both holders of the orbital coefficients (solver, mean_field) with its parent, or neither",
+                       reason=f"only `{''.join(both)}` is replaced on the copy: after `mo_coeff` is set on one of the two molecules the other one's qubit Hamiltonian "
+                              f"(solver.mo_coeff) and its classical reference (mean_field.mo_coeff) use different orbitals")
+    rep.floor("shallow copies of a molecule", n, 1)
+
+
+def check_active_electron_split(idx: Index, rep: Report):
+    """SecondQuantizedMolecule.n_active_ab_electrons folded on occupation patterns: restricted (doubly occupied, then singly occupied orbitals, the spin being the
+    number of singly occupied ones) with some doubly occupied orbitals frozen, and unrestricted (separate alpha and beta occupations).  The pair returned is
+    (alpha, beta) electrons among the active occupied orbitals - whatever way the arithmetic is written."""
+    from ..consteval import FuncVal, Raised, Rec, Undecidable
+    from ..rules.circuitsem import make_folder
+    rule = "K9.alpha-beta"
+    ci = idx.cls(f"{MOL}::SecondQuantizedMolecule")
+    prop = ci.methods.get("n_active_ab_electrons")
+    if prop is None:
+        raise AnalysisError("SecondQuantizedMolecule.n_active_ab_electrons not found")
+    bad, n = [], 0
+    cases = []
+    for docc in range(0, 4):
+        for socc in range(0, 4):
+            for frozen in range(0, min(docc, 2) + 1):
+                if docc + socc - frozen == 0:
+                    continue
+                occ = [2.0] * docc + [1.0] * socc + [0.0, 0.0]
+                cases.append((f"restricted: {docc} doubly and {socc} singly occupied orbitals, {frozen} frozen", {"uhf": False, "mo_occ": occ, "spin": socc,
+                              "active_occupied": list(range(frozen, docc + socc))}, (docc - frozen + socc, docc - frozen)))
+    for na, nb, fa, fb in ((2, 1, 0, 0), (3, 1, 1, 1), (2, 3, 0, 1), (1, 1, 0, 0), (3, 0, 1, 0)):
+        occ = [[1.0] * na + [0.0] * (4 - na), [1.0] * nb + [0.0] * (4 - nb)]
+        cases.append((f"unrestricted: {na} alpha and {nb} beta electrons, {fa} / {fb} frozen", {"uhf": True, "mo_occ": occ, "spin": na - nb,
+                      "active_occupied": [list(range(fa, na)), list(range(min(fb, nb), nb))]}, (na - fa, nb - min(fb, nb))))
+    for label, fields, want in cases:
+        fo = make_folder(idx, MOL)
+        fo.real_arrays = True
+        try:
+            got = fo.call_funcval(FuncVal(prop.node, bound_self=Rec("SecondQuantizedMolecule", dict(fields)), home=MOL), [], {})
+        except Undecidable as e:
+            raise AnalysisError(f"n_active_ab_electrons not foldable ({label}): {e}")
+        except Raised as e:
+            bad.append(f"{label}: raises {e.exc_type}")
+            continue
+        n += 1
+        try:
+            pair = tuple(int(x) for x in got)
+        except (TypeError, ValueError):
+            pair = None
+        if pair != want:
+            bad.append(f"{label}: returns {got!r}, the active occupied orbitals hold {want}")
+    rep.decide(not bad, rule, prop, prop.node, text=f"n_active_ab_electrons on {len(cases)} occupation patterns (restricted closed / open shell with frozen core, unrestricted)",
+               what="the molecule reports (alpha, beta) = electrons of each spin among its active occupied orbitals: (n + s)/2 and (n - s)/2 of the active electron number n and the spin s",
+               reason="; ".join(bad[:2]))
+    rep.floor("occupation patterns folded", n + len(bad), 30)
+
+
 def run(idx: Index, rep: Report, tier: str):
     rep.explain("C04, one structural clause: a spin-sort typestate over the unrestricted integral handling (frozen-core folding, active-space "
                 "selection, spin-orbital assembly), with the layout of the mixed two-electron block derived from the integral solver; plus the "
@@ -283,9 +366,10 @@ def run(idx: Index, rep: Report, tier: str):
     # C04.b
     rule = "K9.alpha-beta"
     clones = [(fn, st) for fn, st in C05.find_alpha_clones(idx) if fn.module.relpath == MOL]
-    rep.floor("molecule alpha formula", len(clones), 1)
     for fn, st in clones:
         C05.decide_alpha_formula(rep, rule, fn, st)
+    check_active_electron_split(idx, rep)
+    check_derived_molecule_sharing(idx, rep)
     # C04.c factors
     rule = "K9.interaction-operator"
     h = idx.function(f"{MOL}::SecondQuantizedMolecule._get_fermionic_hamiltonian")
